@@ -8,9 +8,9 @@ cp -r /repo/ciw "$S/repo/ciw"
 # (seeds were written against earlier commits of /repo: fall back to patch(1) with fuzz when the context has moved)
 ( cd "$S/repo" && git init -q . >/dev/null 2>&1 && { git apply "$P" 2>/dev/null || patch -p1 -F 3 -s --no-backup-if-mismatch < "$P"; } ) || { echo "patch does not apply"; rm -rf "$S"; exit 3; }
 /venv/bin/python - "$S/repo" <<'PY' || { echo "patched tree does not compile (a fuzzy hunk landed in the wrong place?)"; rm -rf "$S"; exit 3; }
-import sys, py_compile, glob
+import sys, glob
 for f in glob.glob(sys.argv[1] + "/ciw/**/*.py", recursive=True):
-    py_compile.compile(f, doraise=True, cfile="/dev/null")
+    compile(open(f).read(), f, "exec")
 PY
 cd "$(dirname "$0")/.." || exit 2
 for id in "$@"; do
